@@ -43,6 +43,22 @@
 (*             at the checkpoints only; its fan probes old and new keys    *)
 (*   scopes  : a ReadCache read through scopes derived by every route      *)
 (*             (offset, offset_length, ReadCtxt::read_scope, nested)       *)
+(*   var     : a variable font (two axes) whose GSUB has an `rvrn` feature *)
+(*             per script - lookups that substitute, a lookup index the    *)
+(*             lookup list does not have, a Lookup table of a type that    *)
+(*             does not exist - next to frac / liga / calt and the Arabic forms,    *)
+(*             whose GPOS value records carry VariationIndex tables and    *)
+(*             whose GDEF has an item variation store with four regions.   *)
+(*             Three fonts: that one, the same with a GDEF that fails to   *)
+(*             load, the same with a FeatureVariations record in GSUB and  *)
+(*             GPOS (exact model of which tuples select the alternative).  *)
+(*             Shaping under every script with no tuple, the default       *)
+(*             instance and several other tuples; calls that FAIL half-way *)
+(*             are part of the histories.  ALL histories up to MaxDepthVar *)
+(*             are generated (the path is part of the VIEW): the model     *)
+(*             keeps nothing of a call but filled memo slots, so it merges *)
+(*             histories an implementation with working state may tell     *)
+(*             apart                                                       *)
 (* The layout of the collide and fill fonts is part of the CASE: the       *)
 (* harness builds the bytes from it.                                       *)
 (***************************************************************************)
@@ -58,7 +74,9 @@ CONSTANTS MaxDepth,        \* depth of histories on the intact font
           FillKeys,        \* fill: length of the history of distinct (script, language, mask) keys
           FillLangs,       \* fill: ... of distinct languages under a complex script
           FillLookups,     \* fill: ... of distinct lookups (= number of lookups of the font's GSUB and GPOS)
-          MaxDepthScopes
+          MaxDepthScopes,
+          MaxDepthVar,     \* var: length of the histories
+          VarTuples        \* var: the variation tuples (besides "none")
 
 VARIABLES st, path
 vars == <<st, path>>
@@ -139,12 +157,53 @@ FillFonts == {FillFont("keys"), FillFont("complex"), FillFont("lookups")}
 
 ScopesFont == [fam |-> "scopes", damaged |-> <<>>, lookups |-> <<>>, imgs |-> 0, sub |-> ""]
 
+\* the variable font.  Scripts: s1 latn, s2 cyrl, s3 grek, s5 hebr (default shaper), s4 arab (Arabic shaper).  In a Coverage
+\* content "^x" is the glyph a single substitution turns x into.  GSUB single = SingleSubst, GPOS vsingle = SinglePos
+\* whose xAdvance has a VariationIndex, vplace = SinglePos whose x and y placement have one; `regs` = the regions of
+\* the GDEF item variation store their delta sets are non-zero for.
+VL(tbl, idx, feat, typ, content, scr, regs) ==
+  LET sub == 2560 + (64 * idx) IN
+  [tbl |-> tbl, idx |-> idx, feat |-> feat, typ |-> typ, ext |-> FALSE, sub |-> sub, l2 |-> FALSE,
+   objs |-> IF typ \in {"missing", "badtype", "badcov"} THEN <<>> ELSE <<Obj("cov", sub, 32, content)>>, nested |-> <<>>, scr |-> scr, regs |-> regs]
+AllScr == <<"s1", "s2", "s3", "s4", "s5">>
+VarLayout ==
+  <<VL("GSUB", 0, "rvrn", "single", "12B", <<"s1", "s2">>, <<>>),      \* latn, cyrl: digits and B get their variants
+    VL("GSUB", 1, "frac", "single", "^1^2", <<"s1">>, <<>>),           \* the variants of the digits become fraction forms
+    VL("GSUB", 2, "liga", "single", "A", <<"s1", "s2", "s3", "s5">>, <<>>),  \* s5 (hebr) has no rvrn at all
+    VL("GSUB", 3, "rvrn", "single", "p", <<"s4">>, <<>>),              \* arab: beh gets its variant (p q r stand for beh lam alef)
+    VL("GSUB", 4, "init", "single", "^pq", <<"s4">>, <<>>),
+    VL("GSUB", 5, "fina", "single", "^pqr", <<"s4">>, <<>>),
+    VL("GSUB", 6, "medi", "single", "^pq", <<"s4">>, <<>>),
+    VL("GSUB", 7, "calt", "badtype", "", <<"s3">>, <<>>),              \* grek: the main stage fails when calt is asked for
+    VL("GSUB", 8, "locl", "single", "D", <<"s1", "s2">>, <<>>),
+    VL("GSUB", 9, "rvrn", "badtype", "", <<"s3">>, <<>>),              \* grek: the rvrn stage fails at once
+    VL("GSUB", 10, "locl", "badcov", "", <<"s3">>, <<>>),             \* grek: a sub-table that does not parse is skipped
+    VL("GSUB", 20, "rvrn", "missing", "", <<"s2">>, <<>>),            \* cyrl: the rvrn stage fails after lookup 0 was applied
+    VL("GPOS", 0, "kern", "vsingle", "AV", AllScr, <<0>>),
+    VL("GPOS", 1, "dist", "vplace", "WX", AllScr, <<1, 2, 3>>),
+    VL("GPOS", 2, "kern", "single", "C", AllScr, <<>>)>>
+VarFont == [fam |-> "var", damaged |-> <<>>, lookups |-> VarLayout, imgs |-> 0, sub |-> "", fv |-> FALSE]
+\* the same font whose GDEF (the item variation store) fails to load: no deltas, the error is part of every result
+VarDmgFont == [VarFont EXCEPT !.damaged = <<"gdef">>, !.sub = "dmg"]
+\* the same font with a FeatureVariations record in GSUB and GPOS (condition: wght >= 0.75, which of the tuples only
+\* tA satisfies): liga, the rvrn of latn and arab and kern get other / more lookups under it
+WithF(r, k, v) == [x \in DOMAIN r \cup {k} |-> IF x = k THEN v ELSE r[x]]
+VarFvLayout ==
+  [i \in DOMAIN VarLayout |-> IF VarLayout[i].tbl = "GSUB" /\ VarLayout[i].idx = 2 THEN WithF(VarLayout[i], "alt", "dflt") ELSE VarLayout[i]]
+  \o <<WithF(VL("GSUB", 11, "liga", "single", "V", <<"s1", "s2", "s3", "s5">>, <<>>), "alt", "alt"),
+       WithF(VL("GSUB", 13, "rvrn", "single", "X", <<"s1">>, <<>>), "alt", "alt"),
+       WithF(VL("GSUB", 14, "rvrn", "single", "q", <<"s4">>, <<>>), "alt", "alt"),
+       WithF(VL("GPOS", 3, "kern", "vsingle", "W", AllScr, <<1>>), "alt", "alt")>>
+VarFvFont == [fam |-> "var", damaged |-> <<>>, lookups |-> VarFvLayout, imgs |-> 0, sub |-> "fv", fv |-> TRUE, fvt |-> <<"tA">>]
+VarFonts == {VarFont, VarDmgFont, VarFvFont}
+
 Fonts == (IF "intact" \in Families THEN {PlainFont} ELSE {})
          \cup (IF "dmg" \in Families THEN DmgFonts ELSE {})
          \cup (IF "collide" \in Families THEN CollideFonts ELSE {})
          \cup (IF "img" \in Families THEN ImgFonts ELSE {})
          \cup (IF "fill" \in Families THEN FillFonts ELSE {})
          \cup (IF "scopes" \in Families THEN {ScopesFont} ELSE {})
+         \cup (IF "var" \in Families THEN VarFonts ELSE {})
 
 \* ---- calls ----------------------------------------------------------------
 ShapeCallX(s, l, m, t, custom, feats, frac, m0) ==
@@ -246,6 +305,32 @@ ScopeObjs   == {Obj("cov", 0, 64, "A"), Obj("cov", 0, 320, "B"), Obj("cov", 0, 6
 ScopeRoutes == {"offset", "offset_length", "read_scope", "nested"}
 ScopeCalls  == {[op |-> "ReadCached", route |-> r, obj |-> o] : r \in ScopeRoutes, o \in ScopeObjs}
 
+\* var: shaping under a script with the features `named` (as a mask, or as a custom list), a tuple, kerning on/off.
+\* The mask of the model is the EFFECTIVE one (the named features the script's language system has - that is the
+\* cache key); the features in force also hold the GPOS features every run gets (dist, and kern when kerning is
+\* asked for) and, under the Arabic shaper, the forms the shaper applies whatever the mask says.
+ScriptHas(font, s, f) == \E L \in Range(font.lookups) : L.tbl = "GSUB" /\ L.feat = f /\ InScript(L, s)
+VarCall(s, named, t, kern, custom) ==
+  LET eff   == SelectSeq(named, LAMBDA f : ScriptHas(VarFont, s, f))    \* the three var fonts have the same features per script
+      frac  == ~custom /\ s # "s4" /\ "frac" \in Range(eff)
+      eff0  == SelectSeq(eff, LAMBDA f : f # "frac")
+      feats == (IF s = "s4" /\ ~custom THEN <<"fina", "init", "medi">> ELSE named) \o (IF kern THEN <<"dist", "kern">> ELSE <<"dist">>) IN
+  WithM([op |-> "Shape", text |-> "w1", script |-> s, lang |-> "l1", mask |-> ToString(eff), tuple |-> t, kern |-> kern,
+         custom |-> custom, feats |-> feats, frac |-> frac, mask0 |-> IF frac THEN ToString(eff0) ELSE ToString(eff)], named)
+N1 == <<"calt", "frac", "liga">>
+N2 == <<"liga", "locl">>
+VarPathCalls ==
+       {VarCall(s, N1, t, TRUE, FALSE) : s \in {"s1", "s2", "s3", "s4"}, t \in {"none", "tA", "tB"}}
+  \cup {VarCall("s5", N1, "tA", TRUE, FALSE)}
+  \cup {VarCall("s1", N1, t, TRUE, FALSE) : t \in VarTuples \ {"tA", "tB"}}
+  \cup {VarCall("s1", N2, "tA", TRUE, TRUE), VarCall("s2", N2, "tB", FALSE, FALSE), [op |-> "Table", k |-> "gdef"]}
+VarFanCalls ==
+       {VarCall(s, n, t, TRUE, FALSE) : s \in {"s1", "s2", "s3", "s4"}, n \in {N1, N2}, t \in {"none"} \cup VarTuples}
+  \cup {VarCall("s5", N1, t, TRUE, FALSE) : t \in {"none", "tA"}}
+  \cup {VarCall("s1", N1, t, FALSE, FALSE) : t \in {"none"} \cup VarTuples}
+  \cup {VarCall(s, N2, "tA", TRUE, TRUE) : s \in {"s1", "s2", "s3", "s4"}}
+  \cup {[op |-> "Table", k |-> "gdef"], [op |-> "Table", k |-> "gsub"]}
+
 \* calls that extend a history / calls probed after it
 PathCalls(font) == CASE font.fam = "intact"  -> IntactCalls
                      [] font.fam = "dmg"     -> DmgCalls
@@ -257,6 +342,7 @@ FanCalls(font)  == CASE font.fam = "intact"  -> IntactCalls \cup TableCalls
                      [] font.fam = "img"     -> Range(ImgQueries)
                      [] font.fam = "fill"    -> FillFan(font, Len(path))
                      [] font.fam = "scopes"  -> ScopeCalls
+                     [] font.fam = "var"     -> VarFanCalls
 DepthOf(font)   == CASE font.fam = "intact"  -> MaxDepth
                      [] font.fam = "dmg"     -> MaxDepthDmg
                      [] font.fam = "collide" -> MaxDepthCollide
@@ -282,9 +368,17 @@ NextImg == /\ st.font.fam = "img"
 NextFill == /\ st.font.fam = "fill"
             /\ Len(path) < FillMax(st.font)
             /\ LET c == FillCall(st.font, Len(path) + 1) IN st' = Step(st, c).st /\ path' = Append(path, c)
-Next == NextShortest \/ NextImg \/ NextFill
+\* var: every history up to the depth
+\* (the font with FeatureVariations: at most 2 calls; the font whose GDEF fails to load: one call fewer)
+VarDepth(font) == CASE font.sub = ""   -> MaxDepthVar
+                    [] font.sub = "fv" -> IF MaxDepthVar > 2 THEN 2 ELSE MaxDepthVar
+                    [] OTHER           -> MaxDepthVar - 1
+NextVar == /\ st.font.fam = "var"
+           /\ Len(path) < VarDepth(st.font)
+           /\ \E c \in VarPathCalls : st' = Step(st, c).st /\ path' = Append(path, c)
+Next == NextShortest \/ NextImg \/ NextFill \/ NextVar
 Spec == Init /\ [][Next]_vars
-View == <<st, IF st.font.fam \in {"img", "scopes"} THEN path ELSE <<Len(path)>> >>
+View == <<st, IF st.font.fam \in {"img", "scopes", "var"} THEN path ELSE <<Len(path)>> >>
 
 \* fill: the fan is probed (and printed) at the checkpoints only
 Probed       == st.font.fam # "fill" \/ IsCheckpoint(st.font, Len(path))
